@@ -155,8 +155,42 @@ func listDepth(v interface{}) int {
 	return d
 }
 
+// c09longList: a list longer than any 16-bit subscript; the paths of its members must resolve like any other.
+func c09longList(c *core.Ctx) {
+	n := 65536 + 4
+	l := make([]interface{}, n)
+	for i := range l {
+		l[i] = "v" + strconv.Itoa(i)
+	}
+	m := mxj.Map{"table": map[string]interface{}{"row": l, "k": "x"}}
+	c.Eval()
+	c.Count("long-list:members-65540")
+	leaves := m.LeafNodes()
+	if len(leaves) != n+1 {
+		c.Violate("c09-enumeration", "LeafNodes does not list every terminal value exactly once", core.D{"map": "table.row: 65540 strings, table.k", "leaves": len(leaves)})
+		return
+	}
+	for _, i := range []int{0, 255, 256, 32767, 32768, 65535, 65536, 65539} {
+		p := "table.row[" + strconv.Itoa(i) + "]"
+		found := false
+		for _, lf := range leaves {
+			if lf.Path == p {
+				found = lf.Value == l[i]
+			}
+		}
+		vs, err := m.ValuesForPath(p)
+		if !found || err != nil || len(vs) != 1 || vs[0] != l[i] {
+			c.Violate("c09-resolution", "a LeafNodes path does not resolve (ValuesForPath) to exactly its value", core.D{"map": "table.row: 65540 strings", "path": p, "listed_by_LeafNodes": found, "values": jv.Show(vs), "err": fmt.Sprint(err)})
+			return
+		}
+	}
+}
+
 func (c09) Case(c *core.Ctx) {
 	r := c.R
+	if c.Index%40000 == 5 {
+		c09longList(c)
+	}
 	cfg := DefaultCfg()
 	cfg.AttrPrefix = []string{"-", "-", "@", "attr_", "", "-", "@", "1", "[", "[1", "#", "#t", "#text"}[r.Intn(13)]
 	cfg.KeyPrefix = []string{"#", "#", "%"}[r.Intn(3)]
